@@ -321,6 +321,82 @@ func geReplayTrace(r geReplay) (string, *Failure) {
 	return geKey(geState{g: g}), nil
 }
 
+// c05Scripted: deterministic long edit scripts on graphs with up to 16 vertices (degrees above 8, capacities that
+// grow several times), every step compared with the model on both representations. A fixed family, not a sample:
+// script s is generated by an LCG seeded with s.
+func c05Scripted(c *Ctx) {
+	scripts, length := 48, 260
+	if c.Thorough() {
+		scripts, length = 400, 400
+	}
+	var steps int64
+	c.parFor(int64(scripts), 1, func(lo, hi int64) {
+		for sd := lo; sd < hi; sd++ {
+			x := uint64(sd)*2654435761 + 99
+			next := func(m int) int {
+				x = x*6364136223846793005 + 1442695040888963407
+				return int((x >> 33) % uint64(m))
+			}
+			maxV := 10 + int(sd%7)
+			for _, rep := range []string{"dense", "sparse"} {
+				st := geInit(rep, []string{"empty", "complete"}[sd%2], int(sd%5))
+				g, m := st.g, st.model
+				var trace []geOp
+				x = uint64(sd)*2654435761 + 99
+				for i := 0; i < length; i++ {
+					var op geOp
+					n := m.n
+					r := next(100)
+					switch {
+					case n < 3 || (r < 22 && n < maxV):
+						var nb []int
+						for v := 0; v < n; v++ {
+							if next(3) != 0 {
+								nb = append(nb, v)
+							}
+						}
+						if next(2) == 0 {
+							for a, b := 0, len(nb)-1; a < b; a, b = a+1, b-1 {
+								nb[a], nb[b] = nb[b], nb[a]
+							}
+						}
+						op = geOp{Op: "AV", V: nb}
+					case r < 30:
+						op = geOp{Op: "RV", I: next(n)}
+					case r < 70:
+						op = geOp{Op: "AE", I: next(n), J: next(n)}
+					case r < 90:
+						op = geOp{Op: "RE", I: next(n), J: next(n)}
+					case r < 94:
+						op = geOp{Op: "CP"}
+					default:
+						V := lcgPerm(n, x)
+						op = geOp{Op: "IS", V: V[:n-next(2)]}
+					}
+					trace = append(trace, op)
+					var f *Failure
+					g, m, f = geApplyRaw(g, m, op)
+					if f != nil {
+						f.Class = "graph-edit/scripted/" + f.Class[len("graph-edit/"):]
+						f.Kind = "ge-script"
+						f.Replay = map[string]interface{}{"rep": rep, "script": sd, "steps": len(trace), "ops": trace}
+						f.What = fmt.Sprintf("script %d, step %d (n=%d): %s", sd, i, n, f.What)
+						c.Fail(f)
+						break
+					}
+				}
+			}
+			c.mu.Lock()
+			steps += int64(2 * length)
+			c.mu.Unlock()
+		}
+	})
+	c.Evals(steps)
+	c.Trans(steps)
+	c.SetCount("scripted_histories", int64(2*scripts))
+	c.SetCount("scripted_steps", steps)
+}
+
 func runC05(c *Ctx) {
 	c.Level = "model_checking"
 	c.Rule = "explicit-state BFS over real DenseGraph / SparseGraph objects keyed by their exact concrete content (fields, capacities, stale storage); alphabet = AddVertex(every subset asc/desc/rotated), RemoveVertex(i), AddEdge/RemoveEdge(i,j incl. i=j, present/absent), Copy, InducedSubgraph(every sequence of distinct vertices); after every transition N,M,IsEdge,Neighbours,Degrees = adjacency-set model; Copy/InducedSubgraph storage independence by scribbling; non-trivial state = concrete state with stale storage or spare capacity (history-dependent)"
@@ -449,6 +525,7 @@ func runC05(c *Ctx) {
 			c.Sample("edit-history-"+tag, map[string]interface{}{"init": kind, "n": n, "ops": b.Trace(k), "state": k})
 		}
 	}
+	c05Scripted(c)
 	c.Nontrivial(nontriv)
 	c.Assume("arguments are valid: vertices in range, AddVertex neighbour lists without repeats")
 }
@@ -471,7 +548,31 @@ func geHasSpare(g graph.EditableGraph) bool {
 	return false
 }
 
+func replayScript(raw json.RawMessage) *Failure {
+	var r struct {
+		Rep    string `json:"rep"`
+		Script int    `json:"script"`
+		Ops    []geOp `json:"ops"`
+	}
+	if err := json.Unmarshal(raw, &r); err != nil {
+		return &Failure{Class: "replay/bad-file", What: err.Error()}
+	}
+	st := geInit(r.Rep, []string{"empty", "complete"}[r.Script%2], r.Script%5)
+	g, m := st.g, st.model
+	for _, op := range r.Ops {
+		var f *Failure
+		g, m, f = geApplyRaw(g, m, op)
+		if f != nil {
+			return f
+		}
+	}
+	return nil
+}
+
 func replayC05(kind string, raw json.RawMessage) *Failure {
+	if kind == "ge-script" {
+		return replayScript(raw)
+	}
 	var r geReplay
 	if err := json.Unmarshal(raw, &r); err != nil {
 		return &Failure{Class: "replay/bad-file", What: err.Error()}
